@@ -186,6 +186,9 @@ def check(pid, tier):
     nrace = conf.get("race_shards", (nshards, nshards))[ti] if race else 0
     shards = [run_shard(pid, tier, seed, i, nshards, i < nrace, timeout, outdir) for i in range(nshards)]
     inconclusive = []
+    # single cases that could not be decided (an overrun that did not reproduce, an I/O hiccup): reported in the
+    # evidence; they make the whole run inconclusive only when they are more than a few (see below)
+    case_inconclusive = []
     for s in shards:
         try:
             s["proc"].wait(timeout=max(1, s["deadline"] - time.time()))
@@ -233,7 +236,7 @@ def check(pid, tier):
             merged["exhaustive"].update(r.get("exhaustive") or {})
             merged["notes"].update(r.get("notes") or {})
             for m in (r.get("inconclusive") or []):
-                inconclusive.append("shard %d: %s" % (s["shard"], m))
+                case_inconclusive.append("shard %d: %s" % (s["shard"], m))
         if recs and not found:
             inconclusive.append("shard %d recorded nothing for %s" % (s["shard"], pid))
         if rc not in (0, 1) and rc is not None and os.path.exists(s["out"]):
@@ -282,6 +285,11 @@ def check(pid, tier):
         cov["native_fuzzing"] = fuzz_info
     if merged["notes"]:
         cov["notes"] = merged["notes"]
+    if case_inconclusive:
+        cov["undecided_cases"] = dict(count=len(case_inconclusive), samples=case_inconclusive[:20],
+                                      rule="tolerated up to max(10, 2% of the evaluations); beyond that the run is inconclusive")
+        if len(case_inconclusive) > max(10, merged["evaluations"] // 50):
+            inconclusive.append("%d cases could not be decided: %s" % (len(case_inconclusive), "; ".join(case_inconclusive[:5])))
     if inconclusive:
         cov["inconclusive"] = inconclusive[:20]
     ev = dict(property_id=pid, tier=tier, seed=seed, level=conf["level"], coverage=cov,
@@ -293,7 +301,8 @@ def check(pid, tier):
     status = 1 if violations else (2 if inconclusive else 0)
     print("%s %s: %d evaluations, %d distinct non-trivial, %d violation(s), %d known-finding line(s), %.0fs%s" % (
         pid, tier, merged["evaluations"], len(merged["hashes"]), violations, len(merged["known_lines"]),
-        time.time() - t0, "" if not inconclusive else " INCONCLUSIVE: " + "; ".join(inconclusive)[:600]))
+        time.time() - t0, ("" if not case_inconclusive else " (%d undecided case(s))" % len(case_inconclusive)) +
+        ("" if not inconclusive else " INCONCLUSIVE: " + "; ".join(inconclusive)[:600])))
     if status != 2 or os.environ.get("VERIF_KEEP"):
         pass
     if not os.environ.get("VERIF_KEEP"):
